@@ -103,6 +103,11 @@ def analyse(fn, call_const, uses_context, what):
         if isinstance(init_entry, tuple) and init_entry[:1] == ('LIST',) and len(init_entry) == 2 \
                 and isinstance(init_entry[1], tuple) and init_entry[1][0] == 'TUPLE' and len(init_entry[1]) == 3:
             gi = 1 if init_entry[1][2] in (G, ('OBJ', G[1]), ('VAR', G[1])) or True else 0
+        elif init_entry in (('LIST',), ('CALL', ('VAR', 'list'))):
+            # the running frame is kept outside the list (which holds suspended callers only): a
+            # representation these rules were not written for - refuse rather than guess
+            raise AnalysisError(f'{what}: the driver keeps the running generator outside its stack (the stack '
+                                f'starts empty): frame representation not covered by the C07 rules')
         carried[G[1]] = gi
         K = None
     else:
